@@ -56,7 +56,7 @@ Render(u) == [kind |-> u.kind, proto |-> u.proto, user |-> Str(u.user), host |->
 Conforms(r) ==
   LET m == Parse(RawOf(r.in), r.in.kind, <<r.home>>, <<r.cwd>>, EnvOf(r.in))
       \* the same parse with token-level directories, for the validity rule on absolute paths
-      mv == Parse(RawOf(r.in), r.in.kind, <<"/", "h">>, <<"/", "w">>, EnvOf(r.in))
+      mv == IF m.ok /\ m.u.proto = "local" THEN Parse(RawOf(r.in), r.in.kind, <<"/", "h">>, <<"/", "w">>, EnvOf(r.in)) ELSE m
   IN
   /\ m.ok = r.p1.ok
   /\ m.ok => /\ Render(m.u) = r.p1.url
